@@ -352,4 +352,51 @@ func genC04(c *Ctx) {
 			c.Violate("unknown-rep", "unknown representation: "+out, []string{line}, nil)
 		}
 	}
+	c04TimeSubs(c)
+}
+
+// c04TimeSubs: the generated time-subtitle representations follow the reference video segment: same status (and the
+// same remaining milliseconds) at every instant around both transitions, for offsets below / above a segment and infinite.
+func c04TimeSubs(c *Ctx) {
+	r := c.Rng
+	for ai := range vAssets {
+		a := &vAssets[ai]
+		ref := refRepOf(a)
+		if ref == nil || ref.ContentType != "video" || a.SegmentDurMS == 0 {
+			continue
+		}
+		n := len(ref.Segments)
+		for it := 0; it < c.N(4, 30); it++ {
+			startS := r.Pick(0, 61, 1000000)
+			tsbd := r.Pick(10, 60)
+			ato := r.Pick(0, 500, a.SegmentDurMS+1000, a.SegmentDurMS*2, -1)
+			cf := mkCfg(startS, tsbd, 0, ato, "n")
+			k := r.Pick(0, 1, n, 3*n+1, 25)
+			e := expectSeg(a, ref, k, 0)
+			atoEff := ato
+			if ato < 0 {
+				atoEff = 0
+			}
+			av, _ := availMS(e, ref.MediaTimescale, startS, atoEff)
+			goneAt := av + int64(tsbd+10)*1000
+			kind := r.PickS("stpp", "wvtt")
+			subCfg := strings.TrimPrefix(cf.s+",timesubs"+kind+"=en", "-,")
+			for _, now := range []int64{av - 1, av, av + 1, av + 500, av + 1000, av + int64(a.SegmentDurMS), goneAt - 5, goneAt + 5, int64(startS)*1000 + 10} {
+				if now < int64(startS)*1000 {
+					continue
+				}
+				nowS := strconv.FormatInt(now, 10)
+				vres := doLive("GET", segURL(a, cf.s, ref.ID, strconv.Itoa(e.nr), nowS))
+				sres := doLive("GET", "/livesim2/"+cfgToURL(subCfg)+a.AssetPath+"/time"+kind+"-en/"+strconv.Itoa(e.nr)+".m4s?nowMS="+nowS)
+				c.Count("timesubs-availability")
+				vs, _ := statusOnly(vres)
+				ss, _ := statusOnly(sres)
+				if vres.code != sres.code || (vres.code == 425 && vs != ss) || sres.panicked != "" {
+					c.Violate("timesubs-availability", fmt.Sprintf("k=%d ato=%d now=%d: generated %s subtitle segment answers %d %s, the reference video segment %d %s",
+						k, ato, now, kind, sres.code, ss, vres.code, vs), []string{"# GET /livesim2/" + cfgToURL(subCfg) + a.AssetPath + "/time" + kind + "-en/" + strconv.Itoa(e.nr) + ".m4s?nowMS=" + nowS}, nil)
+					break
+				}
+			}
+		}
+	}
 }
